@@ -66,7 +66,7 @@ func copyWorld(src *mc.World) *mc.World {
 func storeDigest(w *mc.World) map[string][]mc.KV { return StoresDump(w) }
 
 // exportImport is the C15 oracle on one committed state. contActions: letters used for the differential continuation.
-func exportImport(sc *Scenario) func(e *Exec) []Disc {
+func exportImport(sc *Scenario, probe ...string) func(e *Exec) []Disc {
 	return func(e *Exec) []Disc {
 		var out []Disc
 		add := func(kind, f string, a ...any) { out = append(out, Disc{Kind: kind, Detail: fmt.Sprintf(f, a...)}) }
@@ -121,7 +121,7 @@ func exportImport(sc *Scenario) func(e *Exec) []Disc {
 		first := true
 		for i := range sc.Actions {
 			a := &sc.Actions[i]
-			if a.Gov != nil || (a.Enabled != nil && !a.Enabled(e.M, e.Aux)) {
+			if a.Gov != nil || a.PrefixOnly || (a.Enabled != nil && !a.Enabled(e.M, e.Aux)) {
 				continue
 			}
 			if !first {
@@ -155,6 +155,54 @@ func exportImport(sc *Scenario) func(e *Exec) []Disc {
 					add("genesis.continuation", "after export/import, step %s leaves the %s stores different at keys %v", a.Name, s, d)
 				}
 			}
+			// second continuation step over the probe letters (effects that need two operations after the
+			// import to show, e.g. a counter that is only consulted when the next record prunes)
+			if len(probe) == 0 || CurrentTier != Thorough || ob1.Halted || orig.Poisoned || w2.Poisoned {
+				continue
+			}
+			sa1, sa2 := orig.Snapshot(), w2.Snapshot()
+			m1, x1 := e1.M, e1.Aux
+			for pi, pn := range probe {
+				b := sc.action(pn)
+				if b.Enabled != nil && !b.Enabled(m1, x1) {
+					continue
+				}
+				if pi > 0 {
+					if orig.Poisoned || w2.Poisoned {
+						break
+					}
+					orig.Restore(sa1)
+					w2.Restore(sa2)
+				}
+				f1 := &Exec{W: orig, M: m1.Clone(), Aux: cloneAux(x1), Tracked: e.Tracked}
+				f2 := &Exec{W: w2, M: m1.Clone(), Aux: cloneAux(x1), Tracked: e.Tracked}
+				q1, _ := f1.Run(b, false)
+				q2, _ := f2.Run(b, false)
+				contEvals.add(1)
+				if q1.Halted != q2.Halted || len(q1.Txs) != len(q2.Txs) {
+					add("genesis.continuation", "after export/import, steps %s, %s: original halted=%v txs=%d, imported halted=%v txs=%d", a.Name, b.Name, q1.Halted, len(q1.Txs), q2.Halted, len(q2.Txs))
+					continue
+				}
+				for j := range q1.Txs {
+					if q1.Txs[j].Code != q2.Txs[j].Code {
+						add("genesis.continuation", "after export/import, steps %s, %s tx %d: code %d (%s) on the original chain, %d (%s) on the imported one", a.Name, b.Name, j, q1.Txs[j].Code, q1.Txs[j].Log, q2.Txs[j].Code, q2.Txs[j].Log)
+					}
+				}
+				if q1.Halted {
+					continue
+				}
+				g1, g2 := storeDigest(orig), storeDigest(w2)
+				for _, s := range mc.CustomStores {
+					if d := DiffStores(g1[s], g2[s]); len(d) > 0 {
+						add("genesis.continuation", "after export/import, steps %s, %s leave the %s stores different at keys %v", a.Name, b.Name, s, d)
+					}
+				}
+			}
+			if orig.Poisoned || w2.Poisoned {
+				break
+			}
+			orig.Restore(sa1)
+			w2.Restore(sa2)
 		}
 		importEvals.add(1)
 		// keep one discrepancy per kind and store to bound the output
@@ -169,8 +217,13 @@ func init() {
 	Checks["C15"] = func() *Check {
 		sc := unionScenario(unionOpts{name: "union-genesis"})
 		sc.Visit = exportImport(sc)
+		sc.VisitPure = true
+		rich := c15Rich()
 		return &Check{ID: "C15",
 			Runs: []Run{{S: sc, Opt: map[Tier]Options{
+				Quick:    {Depth: 2, Budget: 150 * time.Second, ReplayEvery: 16},
+				Thorough: {Depth: 4, Budget: 30 * time.Minute, ReplayEvery: 32, MaxStates: 60000},
+			}}, {S: rich, Opt: map[Tier]Options{
 				Quick:    {Depth: 2, Budget: 150 * time.Second, ReplayEvery: 16},
 				Thorough: {Depth: 4, Budget: 30 * time.Minute, ReplayEvery: 32, MaxStates: 60000},
 			}}},
@@ -187,3 +240,84 @@ func init() {
 }
 
 var _ = model.ModGov
+
+// c15Rich: a long prefix drives the chain through the states the statement singles out (orders caught
+// in raised and accepted status next to rejected and completed ones, partially spent eFUND, a pruned
+// registration next to a registered-but-empty one with empty optional fields, purchased storage,
+// expired-unclaimed, emptied and active streams in two denominations, parameters changed by
+// governance); the export/import visitor runs after every block of the prefix and on every state of
+// the search that follows, with a two-step differential continuation.
+func c15Rich() *Scenario {
+	far := GenesisTime.Unix() + 1_000_000_000
+	g := BaseGenesis(
+		mc.AcctSpec{Name: "S1", Coins: Coins(1000, 0)},
+		mc.AcctSpec{Name: "P1", Coins: Coins(1000, 0)}, mc.AcctSpec{Name: "P2", Coins: Coins(1000, 0)},
+		mc.AcctSpec{Name: "PV", Kind: mc.Continuous, Coins: Coins(1000, 0), Vesting: Coins(1000, 0), VestEnd: far},
+		mc.AcctSpec{Name: "W1", Coins: Rich()}, mc.AcctSpec{Name: "W2", Coins: Rich()},
+		mc.AcctSpec{Name: "A", Coins: Rich()}, mc.AcctSpec{Name: "B", Coins: Rich()},
+		mc.AcctSpec{Name: "R1", Coins: Coins(1000, 0)}, mc.AcctSpec{Name: "R2", Coins: Coins(1000, 0)}, mc.AcctSpec{Name: "O", Coins: Rich()},
+	)
+	g.Whitelist = []string{"P1", "PV"}
+	s := &Scenario{Name: "genesis-rich", Genesis: g, KeyTimeNs: false}
+	ms := time.Millisecond
+	add := func(a ...Action) { s.Actions = append(s.Actions, a...) }
+	pre := func(a Action) {
+		a.Enabled = nil
+		a.PrefixOnly = true
+		add(a)
+		s.Prefix = append(s.Prefix, a.Name)
+	}
+	one := func(name string, m model.Msg, f map[string]string) Action {
+		return Action{Name: name, Dt: ms, Txs: func(*model.State) []model.Tx { return []model.Tx{{Msgs: []model.Msg{m}, Fee: f}} }}
+	}
+	next := func(l uint64) uint64 { return l + 1 }
+	pre(one("whitelist(S1,+P2)", model.Msg{Kind: model.EntWhitelist, From: "S1", To: "P2", N: 1}, nil))
+	pre(raise("P1", 50, 9))
+	pre(raise("P2", 11, 9))
+	pre(raise("P1", 5, 9))
+	pre(raise("PV", 500, 9))
+	pre(decide("S1", 1, 2))
+	pre(decide("S1", 2, 3))
+	pre(regAct(model.WrkReg, "W1", []string{"chain-a", "Chain a", "0xgenesis-a", "geth"}, 9))
+	pre(regAct(model.WrkReg, "W2", []string{"chain-b", "", "", "geth"}, 9))
+	pre(regAct(model.BcnReg, "W1", []string{"beacon-a", "Beacon a"}, 9))
+	pre(regAct(model.BcnReg, "W2", []string{"beacon-b", ""}, 9))
+	w1, b1 := wrecAct("wrec(W1,#1,next)", "W1", 1, next), brecAct("brec(W1,#1)", "W1", 1)
+	add(w1, b1) // also letters of the search
+	s.Prefix = append(s.Prefix, w1.Name, b1.Name, w1.Name, b1.Name, w1.Name, b1.Name)
+	pre(purAct("wpur(W1,#1,1)", model.WrkPur, "W1", 1, 1, ""))
+	pre(one("wreg(P1,chain-p,fee24)", model.Msg{Kind: model.WrkReg, From: "P1", S: []string{"chain-p", "Chain p", "0xgenesis-p", "cosmos"}}, fee(24)))
+	pre(one("create(A->R1,600nund@10)", model.Msg{Kind: model.StrCreate, From: "A", To: "R1", Den: mc.Nund, Amt: "600", Rate: 10}, nil))
+	pre(one("create(A->R2,121tok@2)", model.Msg{Kind: model.StrCreate, From: "A", To: "R2", Den: mc.Tok, Amt: "121", Rate: 2}, nil))
+	pre(one("create(B->R1,6000nund@1)", model.Msg{Kind: model.StrCreate, From: "B", To: "R1", Den: mc.Nund, Amt: "6000", Rate: 1}, nil))
+	gs := Action{Name: "gov(stream:fee=0.5)", Gov: &GovSpec{Kind: model.StrParams, Params: "0.500000000000000000"}}
+	gw := Action{Name: "gov(wrk:default=3,max=6)", Gov: &GovSpec{Kind: model.WrkParams, Params: model.AnchorParams{FeeReg: 24, FeeRec: 2, FeePur: 3, Denom: mc.Nund, Default: 3, Max: 6}}}
+	pre(gs)
+	pre(gw)
+	pre(Action{Name: "wait(1m40s)", Dt: 100 * time.Second})
+	pre(one("claim(R1<-A)", model.Msg{Kind: model.StrClaim, From: "R1", To: "A"}, nil))
+	pre(one("claim(R1<-B)", model.Msg{Kind: model.StrClaim, From: "R1", To: "B"}, nil))
+	pre(decide("S1", 4, 2))
+	// letters of the search (and of the differential continuation)
+	add(
+		Action{Name: "wait(1s)", Dt: time.Second, Enabled: func(m *model.State, _ map[string]int) bool { return elapsed(m) < 400 }},
+		wrecAct("wrec(W2,#2,next)", "W2", 2, next), brecAct("brec(W2,#2)", "W2", 2),
+		one("topup(A->R1,65nund)", model.Msg{Kind: model.StrTopUp, From: "A", To: "R1", Den: mc.Nund, Amt: "65"}, nil),
+		one("create(A->R1,90nund@1)", model.Msg{Kind: model.StrCreate, From: "A", To: "R1", Den: mc.Nund, Amt: "90", Rate: 1}, nil),
+		one("cancel(A->R1)", model.Msg{Kind: model.StrCancel, From: "A", To: "R1"}, nil),
+		one("claim(R2<-A)", model.Msg{Kind: model.StrClaim, From: "R2", To: "A"}, nil),
+		one("claim(R1<-B)#", model.Msg{Kind: model.StrClaim, From: "R1", To: "B"}, nil),
+		one("cancel(B->R1)", model.Msg{Kind: model.StrCancel, From: "B", To: "R1"}, nil),
+		one("update(B->R1,@3)", model.Msg{Kind: model.StrUpdate, From: "B", To: "R1", Rate: 3}, nil),
+		one("raise(P2,13)", model.Msg{Kind: model.EntRaise, From: "P2", Den: mc.Nund, Amt: "13"}, nil),
+		decide("S1", 3, 2), decide("S1", 3, 3),
+		one("whitelist(S1,-P1)", model.Msg{Kind: model.EntWhitelist, From: "S1", To: "P1", N: 2}, nil),
+		one("wrec(P1,#3,1,fee2)", model.Msg{Kind: model.WrkRec, From: "P1", ID: 3, H: 1, S: []string{"0xp1", "", "", "", ""}}, fee(2)),
+		purAct("bpur(W1,#1,2)", model.BcnPur, "W1", 1, 2, ""),
+		regAct(model.BcnReg, "O", []string{"beacon-o", "Beacon o"}, 9),
+		one("send(A->O,5nund)", model.Msg{Kind: model.BankSend, From: "A", To: "O", Den: mc.Nund, Amt: "5"}, nil),
+	)
+	s.VisitPure = true
+	s.Visit = exportImport(s, "wait(1s)", "wrec(W1,#1,next)", "wrec(W2,#2,next)", "brec(W1,#1)", "brec(W2,#2)", "topup(A->R1,65nund)", "claim(R1<-B)#", "wrec(P1,#3,1,fee2)")
+	return s
+}
